@@ -2354,8 +2354,10 @@ def _factorize_multiple(
             if expect is None and is_duck_dask_array(by_):
                 raise ValueError("Please provide expected_groups when grouping by a dask array.")
 
+        # an in-memory grouper without expected_groups gets the groups the eager path would find;
+        # every block is then factorized against these, so that codes mean the same thing in all blocks
         found_groups = tuple(
-            pd.Index(pd.unique(by_.reshape(-1))) if expect is None else expect
+            _get_expected_groups(by_, sort=sort) if expect is None else expect
             for by_, expect in zip(by, expected_groups)
         )
         grp_shape = tuple(map(len, found_groups))
@@ -2369,7 +2371,7 @@ def _factorize_multiple(
                 meta=np.array((), dtype=np.int64),
                 **kwargs,
             )
-            for by_, expect_ in zip(by_chunked, expected_groups)
+            for by_, expect_ in zip(by_chunked, found_groups)
         ]
         # This could be avoied but we'd use `np.where`
         # instead `_ravel_factorized` instead i.e. a copy.
